@@ -13,7 +13,7 @@ LDLIBS   := -levent -lm -ldl
 CORE_SRC := accumulators bitset common config log module set git-version
 CORE_OBJ := $(addprefix $(B)/obj/,$(addsuffix .o,$(CORE_SRC)))
 MODS     := iauth iauth_xquery iauth_class
-STUBN    := m0 m1 m2 m3 m4 m5 m6 m7 m8 m9
+STUBN    := m0 m1 m2 m3 m4 m5 m6 m7 m8 m9 m m1x m1xy M2z
 # each stub in four variants: all hooks / no post-init / no destructor / neither (separate files: dlopen
 # identifies a library by its inode)
 STUBS    := $(STUBN) $(addsuffix _np,$(STUBN)) $(addsuffix _nd,$(STUBN)) $(addsuffix _npd,$(STUBN))
@@ -70,6 +70,16 @@ $(B)/stubs/m%_npd.so: $(B)/stubs/stub_npd.so
 	cp $< $@
 
 $(B)/stubs/m%.so: $(B)/stubs/stub.so
+	cp $< $@
+
+# names that the pattern rules above do not produce (empty stem, capital M)
+$(B)/stubs/m.so $(B)/stubs/M2z.so: $(B)/stubs/stub.so
+	cp $< $@
+$(B)/stubs/m_np.so $(B)/stubs/M2z_np.so: $(B)/stubs/stub_np.so
+	cp $< $@
+$(B)/stubs/m_nd.so $(B)/stubs/M2z_nd.so: $(B)/stubs/stub_nd.so
+	cp $< $@
+$(B)/stubs/m_npd.so $(B)/stubs/M2z_npd.so: $(B)/stubs/stub_npd.so
 	cp $< $@
 
 build:
